@@ -11,7 +11,7 @@ pub fn run(o: &Opts) {
         hist_case(&mut sink, "judge_c06", idx, "corpus", &steps, &nonce);
         idx += 1;
     }
-    let n = if o.thorough { 100_000 } else { 1_500 } * o.scale;
+    let n = if o.thorough { 60_000 } else { 1_500 } * o.scale;
     for _ in 0..n {
         if sink.wants(idx) {
             let mut r = Rng::for_case(o.seed, "C06", idx);
